@@ -26,11 +26,13 @@ RULE = ('(a) one job per formula sheet; a case = one (spelling, position, i, j);
         'closed / confirmed, or replayed counterexample')
 
 # sheet contents: 4x4 block of distinct powers of two on each sheet
-TITLES = ['S', 'T 2', 'Data']
+TITLES = ['S', 'T 2', 'Data', '1']          # the last title is all digits and differs from its position
 
 
 def val(s, c, r):
-    return 2 ** (16 * s + 4 * r + c)
+    # low 16 bits: which cell of the block; bits 20..39: a per-sheet counter digit (base 32), so that a sum identifies the set of cells AND the sheet(s)
+    # while staying far below 2**53 (xlsx numbers are doubles)
+    return 2 ** (4 * r + c) + (32 ** s) * 2 ** 20
 
 
 def block(rect, s):
@@ -44,16 +46,17 @@ def spellings():
     for txt, rect in (('A1', (0, 0, 0, 0)), ('$A$1', (0, 0, 0, 0)), ('C$2', (2, 1, 2, 1)), ('$D4', (3, 3, 3, 3)), ('B2:C3', (1, 1, 2, 2)), ('$B$2:$C$3', (1, 1, 2, 2)),
                       ('B$2:$C3', (1, 1, 2, 2)), ('B2:B4', (1, 1, 1, 3)), ('$B$2:$B$4', (1, 1, 1, 3)), ('B2:D2', (1, 1, 3, 1)), ('A1:D4', (0, 0, 3, 3)),
                       ('A:A', (0, 0, 0, 3)), ('$C:$C', (2, 0, 2, 3)), ('B:C', (1, 0, 2, 3)), ('A1:A1', (0, 0, 0, 0))):
-        for prefix, s in (('', None), ('S!', 0), ("'S'!", 0), ("'T 2'!", 1), ('Data!', 2), ("'Data'!", 2)):
+        for prefix, s in (('', None), ('S!', 0), ("'S'!", 0), ("'T 2'!", 1), ('Data!', 2), ("'Data'!", 2), ("'1'!", 3), ('1!', 3)):
             out.append((prefix + txt, s, rect))
     out.append(('Zed!A1', 'unknown', None))
+    out.append(("'7'!A1", 'unknown', None))
     out.append(("'No such'!B2:C3", 'unknown', None))
     out.append(("'t 2'!A1", 'unknown', None))         # titles are case-sensitive keys of the workbook: a different spelling is another (missing) sheet
     return out
 
 
 SPELL = spellings()
-POS = ['operand', 'sum', 'sum_twice', 'countifs', 'index']
+POS = ['operand', 'sum', 'sum_twice', 'countifs', 'index', 'plus_other_sheet']
 
 
 def _job(fsheet, timeout, kfs):
@@ -95,6 +98,13 @@ def _job(fsheet, timeout, kfs):
             formula = f'=SUM({txt})'
         elif pos == 'sum_twice':
             formula = f'=SUM({txt},{txt})'
+        elif pos == 'plus_other_sheet':
+            if s == 'unknown':
+                return None
+            # the same area text on another sheet in the same formula (two references that differ only in the sheet)
+            core = txt.split('!')[-1]
+            osheet = 2 if (fsheet if s is None else s) != 2 else 1
+            formula = f"=SUM({txt})+SUM('{TITLES[osheet]}'!{core})"
         elif pos == 'countifs':
             if ':' not in txt:
                 return None
@@ -113,6 +123,8 @@ def _job(fsheet, timeout, kfs):
             exp = sum(val(*x) for x in flat)
         elif pos == 'sum_twice':
             exp = 2 * sum(val(*x) for x in flat)
+        elif pos == 'plus_other_sheet':
+            exp = sum(val(*x) for x in flat) + sum(val(osheet, c, r) for (_, c, r) in flat)
         elif pos == 'countifs':
             exp = len(flat)
         else:
@@ -169,7 +181,7 @@ def colnum(s):
     return n
 
 
-def _token_job(kind, timeout):
+def _token_job(kind, tfix, timeout):
     """reference text assembled from pieces -> real token -> real handle_cell must give the pieces back (z3 enumerates the pieces)"""
     from excel2pycl.src.cell import Cell
     from excel2pycl.src.handle_cell import handle_cell
@@ -180,6 +192,7 @@ def _token_job(kind, timeout):
         ti, a, c1, r1, c2, r2, tl = z3.Ints('ti a c1 r1 c2 r2 tl')
         ex.assume(z3.And(ti >= 0, ti < 5, a >= 0, a < 16, c1 >= 0, c1 < len(COLS), c2 >= 0, c2 < len(COLS), r1 >= 0, r1 < len(ROWS), r2 >= 0, r2 < len(ROWS),
                          tl >= 0, tl < len(TAILS)))
+        ex.assume(ti == tfix)
         if kind == 'cell':
             ex.assume(z3.And(c2 == 0, r2 == 0, a < 4))
         elif kind == 'wholecol':
@@ -241,7 +254,7 @@ def run(report, tier, seed):
     # (a) end to end
     to = 300 if tier == 'quick' else 1200
     kfs = findings.for_property('C02')
-    res = e2.run_jobs([(f'spellings_on_sheet{fs}', _job, (fs, to, kfs)) for fs in range(3)], NCPU, deadline=to * 2 + 60)
+    res = e2.run_jobs([(f'spellings_on_sheet{fs}', _job, (fs, to, kfs)) for fs in range(4)], NCPU, deadline=to * 2 + 60)
     for name, r in sorted(res.items()):
         cname = 'refs.' + name
         if 'error' in r:
@@ -262,7 +275,7 @@ def run(report, tier, seed):
             report.condition(cname, 'E2', 'holds', r['secs'], r['paths'], 'all spellings x positions closed')
             report.sample(dict(job=cname, cases=r['paths'], secs=r['secs']))
     # (b) reference text -> pieces -> indices
-    tres = e2.run_jobs([(f'token_{k}', _token_job, (k, to)) for k in ('cell', 'matrix', 'wholecol')] + [('all_columns', all_columns, ())], NCPU, deadline=to * 2 + 60)
+    tres = e2.run_jobs([(f'token_{k}_title{t}', _token_job, (k, t, to)) for k in ('cell', 'matrix', 'wholecol') for t in range(5)] + [('all_columns', all_columns, ())], NCPU, deadline=to * 2 + 60)
     for name, r in sorted(tres.items()):
         cname = 'coords.' + name
         if name == 'all_columns':
@@ -289,7 +302,7 @@ def run(report, tier, seed):
             report.sample(dict(job=cname, texts=r['paths'], secs=r['secs']))
     report.encoded('Excel.get_matrix', 'Excel.get_range', 'Excel._fill_cell', 'MatrixOfCellIdentifiersTokenTranslator.translate', 'CellIdentifierRangeTokenTranslator.translate',
                    'CellTranslator.translate', 'handle_cell')
-    report.bound(f'(a) {len(SPELL)} spellings x 3 formula sheets x 5 positions (INDEX with every (row, column) of the area); 4x4 blocks of distinct powers of two on 3 sheets; '
+    report.bound(f'(a) {len(SPELL)} spellings x 4 formula sheets x 6 positions (INDEX with every (row, column) of the area; the same area text on two sheets in one formula); 4x4 blocks of distinct powers of two on 4 sheets (one titled "1"); '
                  '(b) reference texts assembled from 5 title spellings x all $ combinations x 9 boundary columns (A..ZZZ) x 6 boundary rows x 14 trailing characters; all 18 278 column names concretely')
     report.assume('(a) the solver enumerates the finite case space; each case runs natively on a real .xlsx',
                   '(b) E1 (symbolic regex subject) does not finish these harnesses (measured: thousands of paths, one per character value); the solver enumerates a '
